@@ -252,6 +252,7 @@ func (m *c04mon) macro(s *sim) {
 func c04Property(t *rapid.T) {
 	c := c04()
 	cfg := genSimCfg(t)
+	drawExtras(t, c, &cfg)
 	s := newSim(t, c, cfg)
 	defer s.close()
 	mon := &c04mon{feat: map[string]bool{}, kept: map[int]bool{}, dropped: map[int]bool{}}
